@@ -10,6 +10,7 @@ import (
 	"fmt"
 	"go/constant"
 	"go/token"
+	"go/types"
 	"math/big"
 	"strings"
 
@@ -94,11 +95,12 @@ func ruleACCParse(c *Ctx) {
 		return
 	}
 	posName := atomName(newTermEnv().Term(pos))
+	parseDepthTable(c, fn, header, pos, paths)
 	type tail struct {
 		d *DPath
 	}
-	nTail, nIter := 0, 0
-	badTail, badIter := "", ""
+	nTail, nIter, nLenDecode := 0, 0, 0
+	badTail, badIter, badLen := "", "", ""
 	for _, d := range paths {
 		cs := callOrdinal.ReplaceAllString(d.CondString(), "")
 		isTop := strings.Contains(cs, ".op.val == 106)") && !strings.Contains(cs, "!(alloc#0.op.val == 106)")
@@ -183,6 +185,7 @@ func ruleACCParse(c *Ctx) {
 						continue // the OP_RETURN opcode itself (its op comes from the table)
 					}
 					represented++
+					dataLen := int64(0)
 					if l.data != nil {
 						n, ok := lenEval(&T{K: "len", Args: []*T{l.data}}, asg)
 						if !ok {
@@ -190,6 +193,16 @@ func ruleACCParse(c *Ctx) {
 							continue
 						}
 						represented += n.Int64()
+						dataLen = n.Int64()
+					}
+					// the length field the literal is given is what the writer (ParsedOpcode.bytes) holds the data
+					// against: 1 + the number of data bytes
+					if lv, ok := lenEval(l.length, asg); !ok {
+						if badTail == "" {
+							badTail = "the length field of the tail opcode cannot be evaluated: " + l.length.String()
+						}
+					} else if lv.Int64() != 1+dataLen && badTail == "" {
+						badTail = fmt.Sprintf("with %d byte(s) after a top-level OP_RETURN a tail opcode is given the length field %d but carries %d data byte(s): Unparse refuses it as inconsistent", R-1, lv.Int64(), dataLen)
 					}
 				}
 				if represented != R-1 && badTail == "" {
@@ -234,11 +247,45 @@ func ruleACCParse(c *Ctx) {
 			if !adv.equal(want) && badIter == "" {
 				badIter = fmt.Sprintf("an iteration advances the position by %s but the opcode appended stands for %s bytes", adv, want)
 			}
+			// OP_PUSHDATA1/2/4: the number of data bytes is the little-endian value of the 1/2/4 bytes after the
+			// opcode - folded with every script byte given a value of its own
+			for _, cls := range []int64{-1, -2, -4} {
+				pos1 := fmt.Sprintf("(alloc#0.op.length == %d)", cls)
+				if !strings.Contains(cs, pos1) || strings.Contains(cs, "!"+pos1) || data == nil || data.K != "slice" {
+					continue
+				}
+				nLenDecode++
+				asg := map[string]*big.Int{posName: big.NewInt(0)}
+				lenT := &T{K: "bin", Op: token.SUB, Args: []*T{data.Args[2], data.Args[1]}, Typ: types.Typ[types.Int]}
+				bt := map[string]*T{}
+				baseTerms(lenT, bt)
+				for k := range bt {
+					if strings.HasSuffix(k, ".op.length") {
+						asg[k] = big.NewInt(cls)
+					}
+				}
+				// every script byte has a value of its own: script[k] = 0x11 * (k+1); reads of the script - an
+				// element, an element of a part of it, binary.LittleEndian/BigEndian.UintN of a part of it - fold
+				okBytes := true
+				got, ok := evalTerm(foldScriptReads(lenT, asg, &okBytes), asg)
+				wantLen := int64(0)
+				for j := int64(0); j < -cls; j++ {
+					wantLen |= (0x11 * (1 + j + 1)) << (8 * uint(j)) // script[pos+1+j]
+				}
+				if (!okBytes || !ok || got.Int64() != wantLen) && badLen == "" {
+					badLen = fmt.Sprintf("for length class %d the data length is read as %s, which with script bytes 11 22 33 44 55 gives %v; the little-endian value of the %d byte(s) after the opcode is %#x", cls, lenT, got, -cls, wantLen)
+				}
+			}
 		}
 	}
 	c.Covered["ACC-parse:tail_paths"] = nTail
 	c.Covered["ACC-parse:iteration_paths"] = nIter
 	c.Check(badTail == "" && nTail >= 3, "ACC-parse", "Parse/op-return-tail", fn.Pos(), fmt.Sprintf("the opcodes appended after a top-level OP_RETURN stand for exactly the remaining bytes (%d exit paths, remaining length 0..6)", nTail), "Parse loses or invents bytes after a top-level OP_RETURN: "+badTail)
+	if nLenDecode == 0 {
+		c.InfoNote("ACC-parse", "Parse/pushdata-length", fn.Pos(), "the length classes are not selected by tests of the opcode's length field: the decoding of PUSHDATA lengths is not looked at")
+	} else {
+		c.Check(badLen == "", "ACC-parse", "Parse/pushdata-length", fn.Pos(), "the data length of OP_PUSHDATA1/2/4 is the little-endian value of the 1/2/4 bytes after the opcode", "Parse decodes the length of a PUSHDATA push wrongly: "+badLen)
+	}
 	c.Check(badIter == "" && nIter >= 3, "ACC-parse", "Parse/iteration", fn.Pos(), fmt.Sprintf("every iteration advances by opcode byte + length prefix + data length (%d iteration paths)", nIter), "Parse's position and the parsed opcode disagree: "+badIter)
 }
 
@@ -261,4 +308,171 @@ func flattenSlice(t *T) *T {
 		t = &T{K: "slice", Args: []*T{in.Args[0], add(in.Args[1], t.Args[1]), add(in.Args[1], t.Args[2])}, Typ: t.Typ}
 	}
 	return t
+}
+
+// parseDepthTable: the parser's count of open conditional blocks, which decides whether an OP_RETURN ends the
+// script ("top level"): the other counter carried round the loop goes up by one on OP_IF / OP_NOTIF / OP_VERIF /
+// OP_VERNOTIF, down by one on OP_ENDIF and stays for every other opcode - on all 256 opcode bytes, for every
+// iteration path that goes round.
+func parseDepthTable(c *Ctx, fn *ssa.Function, header *ssa.BasicBlock, pos *ssa.Phi, paths []*DPath) {
+	var depth *ssa.Phi
+	for _, ins := range header.Instrs {
+		ph, ok := ins.(*ssa.Phi)
+		if !ok {
+			break
+		}
+		if ph != pos && isIntType(ph.Type()) {
+			if depth != nil {
+				c.Undecided("ACC-parse", "Parse/conditional-depth", fn.Pos(), "more than one counter besides the position is carried round the loop")
+				return
+			}
+			depth = ph
+		}
+	}
+	if depth == nil {
+		c.Undecided("ACC-parse", "Parse/conditional-depth", fn.Pos(), "no counter of open conditional blocks is carried round the loop")
+		return
+	}
+	opv := ""
+	for _, d := range paths {
+		bt := map[string]*T{}
+		for _, cd := range d.Conds {
+			baseTerms(cd.Cond, bt)
+		}
+		for k := range bt {
+			if strings.HasSuffix(k, ".op.val") {
+				if opv != "" && opv != k {
+					c.Undecided("ACC-parse", "Parse/conditional-depth", fn.Pos(), "two different opcode terms: "+opv+", "+k)
+					return
+				}
+				opv = k
+			}
+		}
+	}
+	if opv == "" {
+		c.Undecided("ACC-parse", "Parse/conditional-depth", fn.Pos(), "no decision on the opcode's value")
+		return
+	}
+	var bad []string
+	cells := 0
+	for v := int64(0); v < 256; v++ {
+		want := int64(0)
+		switch v {
+		case 0x63, 0x64, 0x65, 0x66:
+			want = 1
+		case 0x68:
+			want = -1
+		}
+		for _, d0 := range []int64{0, 1, 2} {
+			got := map[string]bool{}
+			for _, d := range paths {
+				if d.EndKind != "loop" || d.Target != header || len(d.Blocks) == 0 {
+					continue
+				}
+				dt := d.Env.Term(depth).String()
+				asg := map[string]*big.Int{opv: big.NewInt(v), dt: big.NewInt(d0)}
+				ok := true
+				for _, cd := range d.Conds {
+					val, evaluated := evalTerm(cd.Cond, asg)
+					if evaluated && (val.Sign() != 0) != cd.Truth {
+						ok = false
+						break
+					}
+				}
+				if !ok {
+					continue
+				}
+				latch := d.Blocks[len(d.Blocks)-1]
+				idx := -1
+				for i, p := range header.Preds {
+					if p == latch {
+						idx = i
+					}
+				}
+				if idx < 0 {
+					continue
+				}
+				nv, evaluated := evalTerm(d.Env.Term(depth.Edges[idx]), asg)
+				if !evaluated {
+					got["a value that does not fold: "+d.Env.Term(depth.Edges[idx]).String()] = true
+					continue
+				}
+				got[fmt.Sprint(nv.Int64()-d0)] = true
+			}
+			cells++
+			// (an opcode that ends the scan on every path - a top-level OP_RETURN - leaves no round to look at)
+			if len(got) == 0 && v == 0x6a && d0 == 0 {
+				continue
+			}
+			if len(got) != 1 || !got[fmt.Sprint(want)] {
+				if len(bad) < 5 {
+					bad = append(bad, fmt.Sprintf("opcode %#x with %d block(s) open: the count changes by %v, expected %d", v, d0, sortedKeys(got), want))
+				}
+			}
+		}
+	}
+	c.Covered["ACC-parse:depth-cells"] = cells
+	c.Check(len(bad) == 0, "ACC-parse", "Parse/conditional-depth", fn.Pos(), "the count of open conditional blocks goes +1 on IF/NOTIF/VERIF/VERNOTIF, -1 on ENDIF, 0 otherwise (256 opcodes x 3 depths)",
+		"the parser's count of open conditional blocks, which decides where a top-level OP_RETURN ends the script, is wrong: "+strings.Join(bad, "; "))
+}
+
+// foldScriptReads rewrites, in a term over the script parameter (*p1), every read of script bytes whose
+// position folds under asg into its value when script[k] = 0x11*(k+1): an element x[i], an element of a part
+// x[a:b][i], and binary.LittleEndian / BigEndian .UintN(x[a:b]).
+func foldScriptReads(t *T, asg map[string]*big.Int, ok *bool) *T {
+	if t == nil {
+		return t
+	}
+	byteAt := func(k int64) int64 { return 0x11 * (k + 1) }
+	// position of element i of a (possibly re-sliced) view of the script
+	var offsetOf func(base *T) (int64, bool)
+	offsetOf = func(base *T) (int64, bool) {
+		switch {
+		case base.String() == "*p1":
+			return 0, true
+		case base.K == "slice" && len(base.Args) == 3:
+			inner, ok1 := offsetOf(base.Args[0])
+			lo, ok2 := evalTerm(foldScriptReads(base.Args[1], asg, ok), asg)
+			if ok1 && ok2 {
+				return inner + lo.Int64(), true
+			}
+		}
+		return 0, false
+	}
+	switch {
+	case t.K == "index" && len(t.Args) == 2:
+		if off, isScript := offsetOf(t.Args[0]); isScript {
+			if i, evaluated := evalTerm(foldScriptReads(t.Args[1], asg, ok), asg); evaluated && off+i.Int64() >= 0 && off+i.Int64() < 14 {
+				return &T{K: "const", C: constant.MakeInt64(byteAt(off + i.Int64())), Typ: t.Typ}
+			}
+			*ok = false
+		}
+	case t.K == "call" && strings.Contains(t.Name, "Endian).Uint") && len(t.Args) == 2:
+		width := 0
+		fmt.Sscanf(t.Name[strings.Index(t.Name, ").Uint")+6:], "%d", &width)
+		if off, isScript := offsetOf(t.Args[1]); isScript && (width == 16 || width == 32 || width == 64) {
+			v := new(big.Int)
+			n := int64(width / 8)
+			for j := int64(0); j < n; j++ {
+				b := big.NewInt(byteAt(off + j))
+				sh := uint(8 * j)
+				if strings.Contains(t.Name, "bigEndian") {
+					sh = uint(8 * (n - 1 - j))
+				}
+				v.Or(v, b.Lsh(b, sh))
+			}
+			return &T{K: "const", C: constant.Make(v), Typ: t.Typ}
+		}
+		*ok = false
+	}
+	if len(t.Args) == 0 {
+		return t
+	}
+	nt := *t
+	nt.s = ""
+	nt.Args = make([]*T, len(t.Args))
+	for i, a := range t.Args {
+		nt.Args[i] = foldScriptReads(a, asg, ok)
+	}
+	return &nt
 }
